@@ -41,6 +41,12 @@ C13)
   instr $REPO/machine/filesys/dir.go=unix $REPO/machine/filesys/mem.go=sync,yield,copy
   build "$W/bin" ./cmd/$LC -overlay "$W/ov.json" || exit 3
   ;;
+C14)
+  instr $REPO/machine/filesys/dir.go=unix $REPO/machine/filesys/mem.go=sync,yield,copy
+  build "$W/bin" ./cmd/$LC -overlay "$W/ov.json" || exit 3
+  build "$W/free" ./cmd/$LC -race -tags free || exit 3
+  export VERIF_FREE_BIN="$W/free"
+  ;;
 *) echo "unknown property $ID" >&2; exit 3;;
 esac
 
